@@ -211,6 +211,7 @@ class MailboxWorld:
         self.rng = random.Random(seed)
         random.seed(seed)
         self.server = ServerTwin(welcome=welcome, acks=acks)
+        self.server.alloc_nameplate = "4"      # the nameplate an `allocate` hands out (spec: AllocChoice)
         self.conns = []
         self.step_events = []
         self.step_exc = []
